@@ -238,3 +238,45 @@ def replay_line_closing():
                 'observed': 'active power the model injects at the from-bus of the closed line: %.6f, pi-model with the line data at the same voltages: %.6f' % (got, want),
                 'native_cmd': 'contracts/specutil.py replay_line_closing'}
     return {'confirmed': False, 'tried': 1}
+
+
+def generator_shares(pack, pid, ss):
+    """Hand-over of a static generator to the dynamic devices that replace it (C05: "the dynamic devices together inject what the power
+    flow found"): every model that declares the split factors gammap / gammaq takes the generator's active power times gammap and its
+    reactive power times gammaq -- each declared string against that statement -- and reads the two powers from the fields ``p`` and
+    ``q`` of the static generator named by its ``gen`` field (structural obligation on the ExtService declarations)."""
+    import inspect
+    import os
+    import re
+    repo = os.environ.get('VERIF_REPO', '/repo')
+    n = 0
+    per_file = {}
+    for mname, m in ss.models.items():
+        if not (hasattr(m, 'gammap') and hasattr(m, 'gammaq')):
+            continue
+        file = os.path.relpath(inspect.getsourcefile(type(m)), repo)
+        n0 = n
+        for power, gamma, src in (('p0s', 'gammap', 'p'), ('q0s', 'gammaq', 'q')):
+            users = [(sn, s.v_str) for sn, s in m.services.items()
+                     if isinstance(getattr(s, 'v_str', None), str) and re.search(r'\b%s\b' % power, s.v_str)
+                     and not re.search(r'\b(?!%s\b|%s\b|gammap\b|gammaq\b|p0s\b|q0s\b)[A-Za-z_]\w*' % (power, gamma), s.v_str)]
+            base = '%s/%s:%s.share-of-%s' % (pid, file, mname, power)
+            ext = m.services_ext.get(power)
+            ok = (ext is not None and type(ext).__name__ == 'ExtService' and ext.src == src and ext.model == 'StaticGen'
+                  and getattr(ext.indexer, 'name', None) == 'gen' and len(users) >= 1)
+            nm = base + '/post[%s is field %s of the static generator named by gen; one share service derives from it]' % (power, src)
+            pack.add({'name': nm, 'verdict': 'proved' if ok else 'refuted', 'backend': 'structural', 'time_s': 0.0, 'model': None, 'smt2': None,
+                      'meta': {'src': getattr(ext, 'src', None), 'model': getattr(ext, 'model', None), 'users': users}, 'note': ''})
+            n += 1
+            if not ok:
+                pack.violation(nm, {'observed': {'src': getattr(ext, 'src', None), 'model': getattr(ext, 'model', None), 'share services': users}}, no_input=True)
+            for sn, declared in users:
+                spec = '%s * %s' % (power, gamma)
+                name = base + '.%s.v_str/post[%s = %s]' % (sn, sn, spec)
+                r = spec_equal(name, declared, spec, meta={'model': mname, 'service': sn})
+                settle_spec(pack, r, declared, spec)
+                n += 1
+        per_file[file] = per_file.get(file, 0) + n - n0
+    for f, k in sorted(per_file.items()):
+        pack.add_function('share services (p0 / q0 / Pref / Qref / pref0 / qref0) of the models declaring gammap, gammaq', f, obligations=k)
+    return n
